@@ -217,7 +217,7 @@ theorem sanitizeFrame_term (hV : ValidateNP) (cfg : Config) (r : RS) (flags cw c
         (peekHeader (r2.set 2 .idle) 2).bind fun x =>
           match x with
           | (nm, r) =>
-            if nm = some FALPH then (readHeader r 2 FALPH).bind fun r => (alphChunk r 2 cw ch).bind fun r => Prog.done (true, r)
+            if nm = some FALPH then (readHeader r 2 FALPH).bind fun r => (alphChunk r 2 (vs.getD 2 0) (vs.getD 3 0)).bind fun r => Prog.done (true, r)
             else Prog.done (false, r)
        else Prog.done (false, r2.set 2 .idle)) p2
       (fun y pos' => Fwd p2 y.2 pos') := by
@@ -232,7 +232,7 @@ theorem sanitizeFrame_term (hV : ValidateNP) (cfg : Config) (r : RS) (flags cw c
         apply Safe.mono (readHeader_safe s kind r3 2 p3 FALPH (by decide) c2)
         intro r4 p4 ⟨d1, d2, d3⟩
         apply Safe.bind
-        apply Safe.mono (alphChunk_safe s kind hV r4 2 cw ch p4 (by decide) d2 (inChunk_not_peek d3))
+        apply Safe.mono (alphChunk_safe s kind hV r4 2 _ _ p4 (by decide) d2 (inChunk_not_peek d3))
         intro r5 p5 ⟨e1, e2, _⟩
         exact Safe.done ⟨by omega, e2⟩
       · exact Safe.done ⟨c1, c2⟩
